@@ -264,7 +264,7 @@ func genC08(e *emitter, r *rng, thorough bool) {
 	// path grammar
 	comps := []string{"0", "1", "7", "00", "007", "2147483647", "2147483648", "2147483649", "4294967295", "4294967296",
 		"99999999999999999999", "0'", "1'", "2147483647'", "2147483648'", "2147483649'", "4294967295'", "4294967296'",
-		"", "'", "''", "1''", "+1", "-1", "1 ", " 1", "1\n", "0x1", "1e3", "١", "m", "1'/", "٣'"}
+		"", "'", "''", "1''", "+1", "-1", "1 ", " 1", "1\n", "0x1", "1e3", "08", "09", "010", "0100'", "017", "0000000019", "0x10", "0X1f", "0b11", "0o17", "1_0", "1_000", "0_1", "١", "m", "1'/", "٣'"}
 	seedS := "seed:" + hx(r.bytes(32)) + ":0"
 	for _, c := range comps {
 		e.emit("path.comp", xkLine(seedS, []string{"p0:" + hx([]byte(c))}))
@@ -390,6 +390,17 @@ func genC18(e *emitter, r *rng, thorough bool) {
 		}
 		rec(nil, 1)
 	}
+	// DerivePublicKeyFromPath inside histories (a read: nothing may change), every path shape incl. the empty one
+	for _, root := range []string{privRoot, pubRoot} {
+		for _, pth := range []string{"", "0", "0'", "1/2", "x"} {
+			h := hx([]byte(pth))
+			if h == "" {
+				h = "-"
+			}
+			e.emit("dpub.history", xkLine(root, []string{"d0:" + h, "c0:1", "d0:" + h, "n0"}))
+			e.emit("dpub.history.quiet", "xkq"+xkLine(root, []string{"c0:1", "d1:" + h, "d0:" + h})[2:])
+		}
+	}
 	// random longer histories
 	n := 40
 	if thorough {
@@ -418,7 +429,7 @@ func genC18(e *emitter, r *rng, thorough bool) {
 				ops = append(ops, fmt.Sprintf("n%d", g))
 				nregs++
 			case 5:
-				ops = append(ops, fmt.Sprintf("p%d:%s", g, hx([]byte(r.pick("", "0", "1/2", "0'/1", "5'")))))
+				ops = append(ops, fmt.Sprintf("%s%d:%s", r.pick("p", "d"), g, hx([]byte(r.pick("", "0", "1/2", "0'/1", "5'")))))
 				nregs++
 			case 6:
 				ops = append(ops, fmt.Sprintf("s%d:%d", g, r.intn(len(nets))))
@@ -515,6 +526,41 @@ func genC07(e *emitter, r *rng, thorough bool) {
 					found++
 					e.emit(fmt.Sprintf("mn.bytelen%d", target), "bip39.mn "+hx(ent)+" "+hx(passes[r.intn(len(passes))]))
 				}
+			}
+		}
+	}
+	// entropies BUILT from word indices: the longest sentences (all 8-letter words: > 200 bytes for 24 words) and the
+	// shortest (all 3-letter words) of every size; random entropy stays within ~6 sigma of the mean length
+	{
+		var long8, short3 []int
+		for i, w := range bip39.English {
+			if len(w) == 8 {
+				long8 = append(long8, i)
+			}
+			if len(w) == 3 {
+				short3 = append(short3, i)
+			}
+		}
+		for _, el := range []int{16, 20, 24, 28, 32} {
+			for _, idxs := range [][]int{long8, short3} {
+				bits := new(big.Int)
+				nw := (el*8 + el/4) / 11
+				for k := 0; k < nw; k++ {
+					bits.Lsh(bits, 11)
+					bits.Or(bits, big.NewInt(int64(idxs[r.intn(len(idxs))])))
+				}
+				bits.Rsh(bits, uint(el/4)) // drop the checksum bits of the last word: it is what the entropy makes it
+				ent := pad32(bits.Bytes())[32-el:]
+				e.emit("mn.extreme-length", "bip39.mn "+hx(ent)+" "+hx(passes[r.intn(len(passes))]))
+			}
+		}
+		// passphrases with white space / control characters at the edges (a trimmed salt would show)
+		ent := r.bytes(16)
+		for _, p := range []string{" ", "TREZOR ", " TREZOR", "\tx", "x\n", "\u00a0x", " a b ", "\x00", "x\x00"} {
+			e.emit("mn.passphrase-edges", "bip39.mn "+hx(ent)+" "+hx([]byte(p)))
+			m, _, err := bip39.Mnemonic(ent, "")
+			if err == nil {
+				e.emit("seed.passphrase-edges", "bip39.seed "+hx([]byte(m))+" "+hx([]byte(p)))
 			}
 		}
 	}
